@@ -244,6 +244,7 @@ static void image_case(uint64_t ii, void *vctx) {
     if (pl->levels >= 2) v_count("C03", "images_from_programs_with_2plus_levels", 1);
     if (rc) {
         v_count("C03", "open_returned_error", 1);
+        v_feature("C03", 1, "%s|levels=%d|open-error=%d|stage=%s", cut_class(im), pl->levels, rc, im->k < pl->k_def ? "definitions" : "later");
         if (clause2) {
             snprintf(key, sizeof(key), "clause2|open-error|rc=%d|levels=%s", rc, pl->levels >= 2 ? ">=2" : "<2");
             v_violation("C03", key, wj, "stop between two complete writes with all definitions on disk, but jls_rd_open returned %d", rc);
@@ -253,6 +254,7 @@ static void image_case(uint64_t ii, void *vctx) {
     }
     v_count("C03", "open_succeeded", 1);
     if (clause2) v_count("C03", "clause2_images", 1);
+    v_feature("C03", 1, "%s|levels=%d|opened|clause2=%d|stage=%s", cut_class(im), pl->levels, clause2, im->k < pl->k_def ? "definitions" : im->k * 10 >= pl->nmut * 9 ? "closing" : "streaming");
     dump_t d1, d2, d3;
     uint64_t ds = vmix(g_seed, 77);
     dump_reader(rd, &d1, ds);
